@@ -343,6 +343,38 @@ fn nested_case(rng: &mut Rng, idx: u64, out: &mut Out) {
             }
         }
     }
+    // optional nested lists whose absent members sit at DIFFERENT positions: members are paired
+    // by position; where the operand has none, the receiver's member stays as it is
+    {
+        let full = (1u64 << parts) - 1;
+        let (ma, mb) = (rng.u64() & full, rng.u64() & full);
+        let mut t = opt(&a_list, ma);
+        let u = opt(&b_list, mb);
+        match guard(|| {
+            t.add_inplace(&u);
+            t
+        }) {
+            Err(m) => {
+                // refusing lists whose presence patterns differ is a legitimate reading as well;
+                // what is not acceptable is a wrong sum
+                let _ = m;
+                out.count("optional_lists_with_different_presence_patterns_refused", 1);
+            }
+            Ok(t) => {
+                out.count("optional_lists_with_different_presence_patterns_added", 1);
+                let want: Vec<f32> = a_list
+                    .iter()
+                    .zip(b_list.iter())
+                    .enumerate()
+                    .filter(|(i, _)| (ma >> i) & 1 == 0)
+                    .flat_map(|(i, (a, b))| if (mb >> i) & 1 == 0 { a.iter().zip(b.iter()).map(|(x, y)| x + y).collect::<Vec<f32>>() } else { a.clone() })
+                    .collect();
+                if !crate::lib_build::bits_eq(&flat(&t), &want) {
+                    out.viol("add:nestedoptional:positions", format!("add_inplace on optional nested lists with presence patterns {:b} / {:b} (1 = absent) does not pair the members by position", ma, mb), J::Null);
+                }
+            }
+        }
+    }
     // scalar division of a nested list
     let s = *rng.pick(&[2.0f32, 3.0, 0.5, -4.0]);
     let mut t = Tensor::nested(dims_list.iter().zip(a_list.iter()).map(|(d, a)| mk(d, a)).collect());
@@ -491,7 +523,7 @@ impl Monitor for C15 {
         vec![("binary", 8000 * k), ("mismatch", 4000 * k), ("scalar", 3000 * k), ("mean", 3000 * k), ("nested", 1500 * k), ("linalg", 2000 * k)]
     }
     fn rule(&self) -> &'static str {
-        "binary: (op in add/sub/mul/hadamard) x (rank 1..4) x (content family: random, special values incl. +-0, denormals, +-MAX, overflowing products, bit-pattern denormals, log-scaled, a dyadic palette {-2,-1,-0.5,0,0.5,1,2}, sorted ramps) on random shapes with extents 1..5: result bit-equal to the IEEE f32 operation performed by the harness (any association for the scaled Hadamard product), bit-identical to the same operation on the numbers laid out as a vector (rank-generic), shape unchanged. mismatch: same ops + mean on operand pairs of different extent or rank (incl. equal element count in another rank): must panic and leave the left operand untouched. scalar: division by scalars incl. 0, tiny, huge + clamp. mean: k = 1..6 others. nested: Nested / NestedOptional add, Nested scalar division, nested length mismatch and member-shape mismatch. linalg: outer product (bit-exact), matrix-vector product (f64 with dot-product bound), transpose, hadamard3d. Distinct = distinct (op, rank, shape, family) descriptors."
+        "binary: (op in add/sub/mul/hadamard) x (rank 1..4) x (content family: random, special values incl. +-0, denormals, +-MAX, overflowing products, bit-pattern denormals, log-scaled, a dyadic palette {-2,-1,-0.5,0,0.5,1,2}, sorted ramps) on random shapes with extents 1..5: result bit-equal to the IEEE f32 operation performed by the harness (any association for the scaled Hadamard product), bit-identical to the same operation on the numbers laid out as a vector (rank-generic), shape unchanged. mismatch: same ops + mean on operand pairs of different extent or rank (incl. equal element count in another rank): must panic and leave the left operand untouched. scalar: division by scalars incl. 0, tiny, huge + clamp. mean: k = 1..6 others. nested: Nested / NestedOptional add (absent members at equal and at different positions in the two operands), Nested scalar division, nested length mismatch and member-shape mismatch. linalg: outer product (bit-exact), matrix-vector product (f64 with dot-product bound), transpose, hadamard3d. Distinct = distinct (op, rank, shape, family) descriptors."
     }
     fn assumptions(&self) -> Vec<&'static str> {
         vec!["hadamard3d is documented as not validating lengths, so it is only driven with equal shapes", "NaN results (inf-inf, 0*inf) are matched as NaN"]
